@@ -102,4 +102,6 @@ package cli
 //@ requires opt != nil && nonnil(ctx) && reconciler != nil && reconciling.recOk(reconciler) && typeis(time, *klog.time) && typeis(yesterday, *klog.date)
 //@ requires typeis(reconciler.Record.(*klog.record).date, *klog.date)
 //@ noframe
+// the time handed to the reconciler: the given time, plus 24h exactly when the record is yesterday's fallback record
+//@ before CloseOpenRange assert typeis(endTime, *klog.time) && klog.off(endTime) == klog.off(time) + ite(shouldTryYesterday && klog.ddn(reconciler.Record.(*klog.record).date) == klog.ddn(yesterday), 1440, 0)
 //@ ensures true
